@@ -591,3 +591,44 @@ def eval_method(ctx, cls_key, ctor_kwargs, preset, method, args=()):
         raise AnalysisError(f"anchor vanished: {cls_key[1]}.{method}")
     res = it.call_func(f, list(args), {}, self_obj=inst)
     return res, inst.attrs
+
+
+class _RunInterp(ObjInterp):
+    """Parser.run evaluated abstractly: parse_data is replaced by a given flat result, file dumps are recorded"""
+
+    def __init__(self, model, tokens_ns, dc, flat):
+        super().__init__(model, tokens_ns, dc)
+        self.flat = flat
+        self.dumps = []
+        self.json_dumped = None
+
+    def call_method(self, name, args, kwargs=None):
+        if name == "parse_data":
+            self.self_attrs["tables"] = copy.deepcopy(self.flat)
+            return self.self_attrs["tables"]
+        return super().call_method(name, args, kwargs)
+
+    def _call_plain(self, f, args, kwargs):
+        if f.name == "dump_data_to_file":
+            self.dumps.append((list(args), dict(kwargs or {})))
+            return None
+        return super()._call_plain(f, args, kwargs)
+
+    def external(self, name, args, kwargs):
+        if name == "json.dumps":
+            self.json_dumped = args[0]
+            return ("json.dumps", args[0])
+        return super().external(name, args, kwargs)
+
+
+def run_tail(ctx, flat, **run_kwargs):
+    """what Parser.run(**run_kwargs) returns when parse_data yields `flat` (lock-step values allowed but handled uniformly):
+    returns (result, dumps recorded)"""
+    m = ctx.model
+    dc = ctx._get("dcmodel", lambda: DCModel(m))
+    it = _RunInterp(m, ctx.grammar.tokens_ns, dc, flat)
+    it.self_attrs = dict(getattr(it, "self_attrs", None) or {})
+    it.self_attrs.setdefault("tables", [])
+    f = m.parser_method("run")
+    res = it.call_func(f, [], dict(run_kwargs))
+    return res, it.dumps
